@@ -119,6 +119,13 @@ def run(ctx):
       all(not g3.reaches(x.id, b.id) for b in bcalls for x in fins) and all(witness(g3, g3.entry.id, [x.id], avoid=[b.id for b in bcalls]) is None for x in fins)
   ctx.check(order, 'C14.entry', construct(fb), 'files in the given order, then the extra bindings, then finalize',
             'the multi-file entry point no longer runs files -> bindings -> finalize in that order', fb.loc(), instance='order')
+  # ... on every path: nothing returns before the finalize decision has been taken
+  ftests = [n for n in g3.live_nodes() if n.kind == 'test' and u(n.ast).replace(' ', '') in ('finalize_config', 'notfinalize_config')]
+  early = witness(g3, g3.entry.id, [g3.exit.id], avoid=[n.id for n in ftests] + [x.id for x in fins] + [n.id for n in g3.live_nodes() if n.kind == 'raise_stmt']) if (ftests or fins) else None
+  ctx.check(early is None and bool(ftests or fins), 'C14.entry', construct(fb), 'every normal return of the multi-file entry point has passed the finalize decision',
+            'the multi-file entry point can return without reaching `if finalize_config: finalize()` (an early return): the configuration is then left '
+            'unlocked and no finalize hook has run although finalize_config is true', fb.loc(), instance='finalize-always',
+            path=describe_path(g3, early) if early else None)
   okf = ok and all(('c', 'finalize_config', True) in facts3[x.id] for x in fins)
   ctx.check(okf, 'C14.entry', construct(fb), 'finalize runs iff finalize_config', 'finalize is not conditioned on finalize_config', fb.loc(), instance='finalize-flag')
   fw = ok and all(passes(c, 1, 'skip_unknown') for n in fcalls + bcalls for c in calls_of_node(n) if prog.resolve_call(fb, c) in (pf.qual, pc.qual))
